@@ -179,6 +179,8 @@ C12_PendingCompletes(cfg, job, pods, now, nokube) ==
 
 \* ---------- C13 ----------
 C13_OrderStep(job, jobN, podsN) == (job.ex /\ ~jobN.ex) => \A r \in Range(job.refs) : ~\E p \in Range(podsN) : p.name = r.name /\ p.mine
+\* ... nor any other task it owns (a task that was created but never recorded, because the status write of that pass was lost)
+C13_OrderAllStep(job, jobN, podsN) == (job.ex /\ ~jobN.ex) => ~\E p \in Mine(podsN) : TRUE
 \* judged when the Job leaves the API after a controller-issued delete at instant ttlAt: it must be finished, and the
 \* delete must not precede (finish + TTL) for the recorded finish time or for the instant doneAt at which the Job
 \* was over in truth (the recorded finish time can move later when the write that records it is retried)
